@@ -428,13 +428,15 @@ func runC10(sc *Scenario, keepLog bool) *RunReport {
 			if base, _ := sc.Params["twin_of"].(string); base != "" {
 				if f, ok := seen[fmt.Sprintf("%s|%v", base, eff)]; ok && f.out.panic == "" {
 					rep.fault("warning-only-twin-compared", 1)
-					if f.out.valid != so.valid || strings.Join(f.out.errors, "\n") != strings.Join(so.errors, "\n") {
+					// (only where the added conditions are still recognised as warnings: a library that reports one of them as
+					// an error instead has reclassified it, which this property does not forbid)
+					_, noNewWarning := subset(so.warnings, f.out.warnings)
+					if noNewWarning {
+						rep.probe("twin-without-extra-warning", 1)
+					} else if f.out.valid != so.valid || strings.Join(f.out.errors, "\n") != strings.Join(so.errors, "\n") {
 						viol(i, op, "warnings-change-errors", mismatchSpec(specOutcome{valid: f.out.valid, errors: f.out.errors}, specOutcome{valid: so.valid, errors: so.errors}), f.out.key(), so.key(),
 							fmt.Sprintf("this document is the document of validation #%d plus conditions that only warrant warnings, yet its verdict or its errors differ (continue-on-errors=%v)", f.op, eff))
 						break
-					}
-					if len(so.warnings) <= len(f.out.warnings) {
-						rep.probe("twin-without-extra-warning", 1)
 					}
 				}
 			}
